@@ -54,3 +54,7 @@ Definition judge_re {Q} `{EqDec Q} `{Canon Q} (A : enfa Q) (r : re) (limit k : n
 (* ---- C16: transducers ---- *)
 From PFL Require Export Spec.Fst Model.Fst.
 Definition TFUEL : nat := 24%nat.
+
+(* ---- C05: regular expressions ---- *)
+From PFL Require Export Model.RegexParse.
+Definition judge_re2 (r1 r2 : re) : verdict := judge (renumber (re_fa r1)) (renumber (re_fa r2)).
